@@ -640,7 +640,10 @@ func (d *decoder) parseDataFields(dm *defmsg, knownMsg bool, msgv reflect.Value)
 
 		pfield, pfound := getField(dm.globalMsgNum, dfield.num)
 		if pfound {
-			if pfield.t.BaseType() != types.BaseString && !pfield.t.Array() {
+			// Only time and coordinate fields are read at the full
+			// profile width below; native fields are read with the
+			// width of the definition's base type.
+			if pfield.t.Kind() != types.NativeFit && !pfield.t.Array() {
 				padding = pfield.t.BaseType().Size() - dsize
 			}
 		} else if d.opts.unknownFields {
@@ -660,8 +663,11 @@ func (d *decoder) parseDataFields(dm *defmsg, knownMsg bool, msgv reflect.Value)
 					d.tmp[j] = 0x00
 				}
 			} else {
-				for j := 0; j < pfield.t.BaseType().Size(); j++ {
-					d.tmp[j], d.tmp[j+padding] = 0x00, d.tmp[j]
+				for j := dsize - 1; j >= 0; j-- {
+					d.tmp[j+padding] = d.tmp[j]
+				}
+				for j := 0; j < padding; j++ {
+					d.tmp[j] = 0x00
 				}
 			}
 		}
